@@ -83,7 +83,9 @@ var (
 	lockE    *lockEnv
 )
 
-func lockAddr(n string) sdk.AccAddress { return sdk.AccAddress([]byte("verif_lock_account_" + n + "_")) }
+func lockAddr(n string) sdk.AccAddress {
+	return sdk.AccAddress([]byte("verif_lock_account_" + n + "_"))
+}
 
 func lockSetup(t *testing.T) *lockEnv {
 	lockOnce.Do(func() {
@@ -745,14 +747,38 @@ func lockHistory(e *lockEnv, rng *RNG, out *Out, h int) {
 		g.emit("dump")
 	}
 	// holds first: one on a random account of every history, often several
-	nh := 1 + rng.Intn(4)
-	for i := 0; i < nh; i++ {
-		placeHold(Pick(rng, holders))
+	nh := 2 + rng.Intn(4)
+	perm := append([]string{}, holders...)
+	for i := len(perm) - 1; i > 0; i-- {
+		j := rng.Intn(i + 1)
+		perm[i], perm[j] = perm[j], perm[i]
 	}
+	for i := 0; i < nh; i++ {
+		placeHold(perm[i%len(perm)])
+	}
+	// pickSrc chooses the account/denom a route debits: mostly one that carries a hold
+	pickSrc := func(allowed, ds []string) (string, string) {
+		if rng.Chance(65) {
+			var cands [][2]string
+			for _, n := range allowed {
+				for _, d := range ds {
+					if g.held(n, d).IsPositive() {
+						cands = append(cands, [2]string{n, d})
+					}
+				}
+			}
+			if len(cands) > 0 {
+				c := Pick(rng, cands)
+				return c[0], c[1]
+			}
+		}
+		return Pick(rng, allowed), Pick(rng, ds)
+	}
+	plain := []string{bond, "apple"}
 	coinOf := func(n, d string) string { return g.amount(n, d).String() + d }
-	coinsOf := func(n string) string {
+	coinsOfD := func(n, d string) string {
 		// one or two denoms, sorted
-		ds := []string{Pick(rng, []string{bond, "apple"})}
+		ds := []string{d}
 		if rng.Chance(25) {
 			ds = []string{bond, "apple"}
 		}
@@ -774,17 +800,16 @@ func lockHistory(e *lockEnv, rng *RNG, out *Out, h int) {
 	for s := 0; s < steps; s++ {
 		switch k := rng.Intn(100); {
 		case k < 16: // bank MsgSend
-			f := Pick(rng, users)
-			to := Pick(rng, []string{"A", "B", "V", "C", "MKT", "Q", "Q", "POOL"})
+			f, d := pickSrc(users, plain)
+			to := Pick(rng, []string{"A", "B", "V", "C", "MKT", "Q", "Q", "Q", "POOL"})
 			if to == f {
 				to = "B"
 			}
-			op := fmt.Sprintf("send %s %s %s%s", f, to, coinsOf(f), g.restr(15, 1, []string{"A", "B", "MKT"}))
+			op := fmt.Sprintf("send %s %s %s%s", f, to, coinsOfD(f, d), g.restr(15, 1, []string{"A", "B", "MKT"}))
 			noteQ(op, g.emit(op), f)
 		case k < 26: // MsgMultiSend 1→n
-			f := Pick(rng, users)
+			f, d := pickSrc(users, plain)
 			nOut := 1 + rng.Intn(3)
-			d := Pick(rng, []string{bond, "apple"})
 			tot := g.amount(f, d)
 			var outs []string
 			rest := tot
@@ -806,37 +831,46 @@ func lockHistory(e *lockEnv, rng *RNG, out *Out, h int) {
 			n := 1 + rng.Intn(3)
 			var ins []string
 			for i := 0; i < n; i++ {
-				f := Pick(rng, []string{"A", "B", "V", "C", "MKT"})
-				ins = append(ins, fmt.Sprintf("%s:%s", f, coinOf(f, Pick(rng, []string{bond, "apple"}))))
+				f, d := pickSrc([]string{"A", "B", "V", "C", "MKT"}, plain)
+				if i > 0 && rng.Chance(60) { // only one input at the boundary, the others small
+					ins = append(ins, fmt.Sprintf("%s:%d%s", f, 1+rng.Intn(20), d))
+					continue
+				}
+				ins = append(ins, fmt.Sprintf("%s:%s", f, coinOf(f, d)))
 			}
 			g.emit(fmt.Sprintf("ioprov %s %s%s", strings.Join(ins, "|"), Pick(rng, []string{"A", "B", "MKT"}), g.restr(15, n, []string{"A", "B"})))
 		case k < 46: // staking MsgDelegate (vesting bypass)
-			f := Pick(rng, []string{"A", "V", "V", "C", "C", "B"})
+			f, _ := pickSrc([]string{"A", "V", "V", "C", "C", "B"}, []string{bond})
 			g.emit(fmt.Sprintf("delegate %s %s%s", f, coinOf(f, bond), g.restr(8, 1, []string{"A"})))
 		case k < 51:
 			f := Pick(rng, users)
 			g.emit(fmt.Sprintf("undelegate %s %s", f, coinOf("POOL", bond)))
 		case k < 54:
-			g.emit(fmt.Sprintf("burn POOL %s", coinsOf("POOL")))
+			_, d := pickSrc([]string{"POOL"}, plain)
+			g.emit(fmt.Sprintf("burn POOL %s", coinsOfD("POOL", d)))
 		case k < 61: // gov MsgDeposit
-			f := Pick(rng, users)
+			f, _ := pickSrc(users, []string{bond})
 			g.emit(fmt.Sprintf("deposit %s %s", f, coinOf(f, bond)))
 		case k < 68: // marker withdraw from the marker account (escrow with a hold)
-			d := Pick(rng, denoms)
+			_, d := pickSrc([]string{"MK"}, denoms)
 			g.emit(fmt.Sprintf("mwithdraw %s %s", Pick(rng, []string{"A", "B", "ADM"}), coinOf("MK", d)))
 		case k < 76: // marker forced transfer of the restricted denom out of a user / market account
-			f := Pick(rng, []string{"A", "B", "V", "C", "MKT"})
+			f, _ := pickSrc([]string{"A", "B", "V", "C", "MKT"}, []string{lockRDenom})
 			to := Pick(rng, []string{"A", "B", "ADM"})
 			if to == f {
 				to = "ADM"
 			}
 			g.emit(fmt.Sprintf("mtransfer %s %s %s", f, to, coinOf(f, lockRDenom)))
 		case k < 83: // exchange MarketWithdraw
-			g.emit(fmt.Sprintf("mktwithdraw %s %s", Pick(rng, []string{"A", "B", "ADM"}), coinsOf("MKT")))
+			_, d := pickSrc([]string{"MKT"}, plain)
+			g.emit(fmt.Sprintf("mktwithdraw %s %s", Pick(rng, []string{"A", "B", "ADM"}), coinsOfD("MKT", d)))
 		case k < 88: // quarantine accept (funds leave the holder account, which may carry a hold)
 			f := Pick(rng, users)
 			if len(qsenders) > 0 && rng.Chance(85) {
 				f = Pick(rng, qsenders)
+				if rng.Chance(40) { // the funds holder itself carries a hold
+					placeHold("QH")
+				}
 			}
 			if r := g.emit(fmt.Sprintf("qaccept Q %s", f)); strings.HasPrefix(r, "ok ") && r != "ok -" {
 				out.Count("qaccept:released")
